@@ -407,7 +407,7 @@ def build_cases(tier):
     add(MetamorphicCase, N=1, R=3, P=2, failed=(False, False, False), failed_by_count=(1,), pmin=2, estimators=("stddev",), seed=seed,
         weights=(Fraction(1, 2), Fraction(1, 4), Fraction(1, 4)))
     if tier == "thorough":
-        for s in range(1, 6):
+        for s in range(1, 4):
             add(N=2, R=2, P=3, symflags="all", seed=seed + s, design=("random", "normal")[s % 2])
             add(N=3, R=2, P=4, K=2, symflags="r0", seed=seed + s, mask=(True, True, False))
             add(N=2, R=2, P=3, merge=True, shared=True, weights=(Fraction(1, 3), Fraction(2, 3)), symflags="all", seed=seed + s)
@@ -424,7 +424,7 @@ def build_cases(tier):
 META = dict(
     bounds={"quick": "L1: thin m x n systems m<=4, n<=3 with exact rational orthogonal factors and symbolic singular values; "
                      "L2: N<=3 variables, R<=3, P<=4, K<=2, C<=2, slopes/offsets in [-1000,1000], concrete designs drawn from VERIF_SEED",
-            "thorough": "L2: 5 more seeds per shape, R<=4, P<=4, N<=3",
+            "thorough": "L2: 3 more seeds per shape, R<=4, P<=4, N<=3",
             "outside": "symbolic perturbation matrices (NumPy's SVD runs on concrete deltas: z3 NRA cannot encode the SVD contract for n>=2); "
                        "merged estimation with symbolic realization weights; standard-deviation gradients beyond R=2; rounding beyond 1e-6*(1+1000)"},
     stubs=["sampler plug-in `stub`: returns the concrete design (zero on fixed variables)",
@@ -434,4 +434,5 @@ META = dict(
                  "merged estimation is claimed only for shared perturbations (same surviving rows) or identical realizations",
                  "stddev gradients: the reported standard deviation exceeds 0.01 and the function/gradient failure sets agree"],
     timeout_ms={"quick": 20000, "thorough": 60000},
+    budget_s={"thorough": 7200},
 )
